@@ -60,7 +60,12 @@ for b, ds in bases.items():
                     return os.path.basename(d), {"error": "does not compile: " + str(e)[-300:]}
                 new = {}
                 for p in claimed:
-                    nk = sorted(x for rid in PROPS[p]["rules"] for x in k[rid] - base_keys[rid])
+                    # a finding the base commit already has (a genuine defect of that commit) may move with the code it is in:
+                    # same rule, same instance, another function - that is the same finding, not a false alarm
+                    def moved(x, rid):
+                        parts = x.split("|")
+                        return len(parts) >= 3 and any(y.split("|")[0] == parts[0] and y.split("|")[2:] == parts[2:] for y in base_keys[rid])
+                    nk = sorted(x for rid in PROPS[p]["rules"] for x in k[rid] - base_keys[rid] if not moved(x, rid))
                     if nk:
                         new[p] = nk
                 return os.path.basename(d), {"new": new}
